@@ -184,6 +184,14 @@ def p_item(mpath, k, bump=0, arg=None):
     return ('own', y)
 
 
+def p_item_big(mpath, k, bump=0, arg=None):
+    """item 2 comes with 32 MB of padding (more than the socket buffers hold): its result message is read by the receiving side in many pieces"""
+    mark(mpath, 'item %d start' % k)
+    y = k + bump
+    mark(mpath, 'item %d ret' % k)
+    return ('own', y, b'p' * (32 * 1024 * 1024)) if k == 2 else ('own', y)
+
+
 def p_item_raise3(mpath, k, bump=0, arg=None):
     mark(mpath, 'item %d start' % k)
     if k == 3:
